@@ -280,7 +280,7 @@ def units(tier, seed):
         for sk in ("simple", "nbc"):
             for j in range(3 if tier == "thorough" else 2):
                 k += 1
-                descs.append(dict(engines=list(eng), gens=1 + k % 2, Mh=4, seed=s, sprout={"kind": sk, "L": 2}, obj=("sphere_in", "twofunnel", "lin_corner")[k % 3],
+                descs.append(dict(engines=list(eng), gens=1 + k % 2, Mh=4, seed=s, sprout={"kind": sk, "L": 2}, obj=("sphere_in", "twofunnel", "lin_corner", "plateau", "const", "tiny_offset")[k % 6],
                                   box=("B_asym", "B_sym", "B_3d")[(k // 3) % 3], lsc=[lscs[(k + i) % 3] for i in range(len(eng))], hib=bool(k % 4 == 0)))
     # objectives undefined (NaN) on part of the box: the direction switches must treat NaN alike
     for eng in [e for e in shapes if not any(v.startswith("CMA") or v == "LOC" for v in e)]:
